@@ -145,7 +145,10 @@ func (m *runtimeContextManager) PushContext(ctx RuntimeContextDef) {
 	m.messageHandler = ctx.MessageHandler
 	m.messageHandlerThread = nil
 	m.parent = &parent
-	if ctx.GCPolicy == IsolateGCPolicy || ctx.HardLimits.Millis > 0 || ctx.HardLimits.Cpu > 0 || ctx.HardLimits.Memory > 0 {
+	// A context that restricts resources or requires compliance flags runs the
+	// finalizers of the values it marks itself, before it ends: otherwise
+	// they would run later, in an enclosing context, outside its restrictions.
+	if ctx.GCPolicy == IsolateGCPolicy || ctx.HardLimits.Millis > 0 || ctx.HardLimits.Cpu > 0 || ctx.HardLimits.Memory > 0 || ctx.RequiredFlags != 0 {
 		m.weakRefPool = luagc.NewDefaultPool()
 		m.gcPolicy = IsolateGCPolicy
 	} else {
